@@ -42,6 +42,9 @@ def storV2 (codec : Codec) (crc : Checksum) : Hv.Migrate.V2 B B where
   hasKey f k := match loadIndex goodCfg codec.toDecoder crc f with
     | .ok (idx, _) => (idx.find k).isSome
     | .error _ => false
+  keys f := match loadIndex goodCfg codec.toDecoder crc f with
+    | .ok (idx, _) => idx.map Prod.fst
+    | .error _ => []
 
 /-- records the V2 writer accepts and the format can carry -/
 def okE (e : Hv.Migrate.Entry B) : Prop := EntryOK (entOf e)
@@ -130,6 +133,29 @@ theorem value_lastWrite (k : B) (es : List (Hv.Migrate.Entry B)) (hnd : (es.map 
       rw [hL, Hv.Migrate.lookup_cons, if_neg (by simpa using hak)]
       exact ih hnd'.2
 
+theorem find_isSome_mem (idx : Index) (k : B) (h : (idx.find k).isSome = true) : k ∈ idx.map Prod.fst := by
+  induction idx with
+  | nil => simp [Index.find] at h
+  | cons p rest ih =>
+    obtain ⟨a, b⟩ := p
+    by_cases hk : k = a
+    · subst hk; simp
+    · have hne : (k == a) = false := by simpa using hk
+      simp only [Index.find, List.lookup, hne] at h
+      exact List.mem_cons_of_mem _ (ih h)
+
+theorem mem_find_isSome (idx : Index) (k : B) (h : k ∈ idx.map Prod.fst) : (idx.find k).isSome = true := by
+  induction idx with
+  | nil => simp at h
+  | cons p rest ih =>
+    obtain ⟨a, b⟩ := p
+    by_cases hk : k = a
+    · subst hk; simp [Index.find, List.lookup]
+    · have hne : (k == a) = false := by simpa using hk
+      simp only [List.map_cons, List.mem_cons, hk, false_or] at h
+      simp only [Index.find, List.lookup, hne]
+      exact ih h
+
 /-- what `LoadIndex` returns for a file written by the migrator -/
 theorem loadIndex_fileOf (codec : Codec) (crc : Checksum) (nm : B) (es : List (Hv.Migrate.Entry B))
     (hn : okN nm) (he : ∀ e ∈ es, okE e) :
@@ -155,7 +181,7 @@ theorem loadIndex_fileOf (codec : Codec) (crc : Checksum) (nm : B) (es : List (H
 
 /-- **The assumption of C23 holds for the C01 storage model.** -/
 theorem storV2_lawful (codec : Codec) (crc : Checksum) : (storV2 codec crc).Lawful okE okN := by
-  refine ⟨?_, ?_, ?_, fun e he => accepts_of_ok e he, ?_⟩
+  refine ⟨?_, ?_, ?_, fun e he => accepts_of_ok e he, ?_, ?_, ?_⟩
   · intro nm es hn he hnd k
     simp only [storV2, loadIndex_fileOf codec crc nm es hn he]
     rw [find_specOf, value_lastWrite k es hnd]
@@ -168,6 +194,19 @@ theorem storV2_lawful (codec : Codec) (crc : Checksum) : (storV2 codec crc).Lawf
     have := hn.1
     simp only [storV2, Bool.not_eq_true', decide_eq_false_iff_not, Nat.reducePow] at this ⊢
     omega
+  · intro f k hk
+    simp only [storV2] at hk ⊢
+    cases hl : loadIndex goodCfg codec.toDecoder crc f with
+    | error e => simp [hl] at hk
+    | ok p =>
+      obtain ⟨idx, n⟩ := p
+      simp only [hl] at hk ⊢
+      exact find_isSome_mem idx k hk
+  · intro nm es k hn he hnd hk
+    simp only [storV2, loadIndex_fileOf codec crc nm es hn he] at hk
+    have : ((specOf (es.map entOf)).find k).isSome = true := mem_find_isSome _ k hk
+    rw [find_specOf, value_lastWrite k es hnd] at this
+    exact this
 
 /-- the record the writer refuses: a key of 65536 bytes (and the empty key) -/
 theorem long_key_refused (codec : Codec) (crc : Checksum) (v : B) :
